@@ -57,6 +57,7 @@ def run(res, tier, br, model_ok=True, search=False):
     drv_reqs, drv_meta = [], []
     texts_for_regex = []
     e2e = []
+    entry = []
     for p in progs:
         fields = header.random_fields(rng)
         hdr = header.header42(p.name, **fields)
@@ -101,6 +102,9 @@ def run(res, tier, br, model_ok=True, search=False):
                     drv_meta.append((vname, n, rp))
             texts_for_regex.append(text[:1200])
             e2e.append((p.name, text))
+            entry.append((p.name, vname, text, want))
+    # the same through the command line, the text stored in a file and passed inline: reported exactly as often
+    cli_entries(res, rng, entry, 60 if big else 18)
     # the regex itself: re.search vs the model's NFA on header texts and near-misses
     pat = None
     import norminette.rules.check_header as CH
@@ -152,8 +156,53 @@ def run(res, tier, br, model_ok=True, search=False):
     res.sample({"header": header.header42("x.c", **header.random_fields(rng)).split("\n")[3:9]})
 
 
+def count_cli(name, text, how, d):
+    import os, json
+    from impl import main_inprocess
+    if how == "file":
+        open(os.path.join(d, name), "w").write(text)
+        out = main_inprocess(["-f", "json", name], d)
+    else:
+        out = main_inprocess(["-f", "json", "--hfile" if name.endswith(".h") else "--cfile", text, "--filename", name], d)
+    jl = [l for l in out["stdout"].split("\n") if l.startswith("{")]
+    if out.get("exc") or not jl:
+        return None, out
+    doc = json.loads(jl[-1])
+    return sum(1 for f in doc["files"] for e in f["errors"] if e["name"] == "INVALID_HEADER"), out
+
+
+def cli_entries(res, rng, entry, n):
+    import shutil, tempfile
+    whole = [e for e in entry if e[1].startswith(("M1_", "M2_", "M3_", "M24_"))]
+    pick = rng.sample(whole, min(len(whole), n // 3)) + rng.sample(entry, min(len(entry), n - n // 3))
+    d = tempfile.mkdtemp(prefix="verif_c13_")
+    try:
+        for name, vname, text, want in pick:
+            for how in ("file", "inline"):
+                got, out = count_cli(name, text, how, d)
+                res.count("header.cli", 1)
+                if got is None:
+                    continue        # fatal parse error or no report: not analysed to a verdict
+                if got != want:
+                    sig = "header:valid-rejected" if want == 0 else ("header:mutation-accepted" if got == 0 else "header:reported-twice")
+                    res.report(sig, f"{name} [{vname}] through the command line ({how}): {got} INVALID_HEADER, expected {want}",
+                               {"kind": "header-cli", "name": name, "variant": vname, "src": text, "expected": want, "how": how})
+    finally:
+        shutil.rmtree(d, ignore_errors=True)
+
+
 def replay(rp):
     from impl import pipeline
+    if rp.get("kind") == "header-cli":
+        import shutil, tempfile
+        d = tempfile.mkdtemp(prefix="verif_c13r_")
+        try:
+            got, out = count_cli(rp["name"], rp["src"], rp["how"], d)
+        finally:
+            shutil.rmtree(d, ignore_errors=True)
+        print("variant:", rp["variant"], "entry:", rp["how"], "INVALID_HEADER x", got, "expected", rp["expected"])
+        print(rp["src"][:600])
+        return 0 if got == rp["expected"] else 1
     if rp.get("kind") != "header":
         print("replay names a broken obligation/correspondence:", rp.get("broken"))
         return 1
